@@ -66,6 +66,10 @@ def check(run, prog, tier):
     run.rule("C07-H", "where the operator form conjugates a system operator it takes the Hermitian conjugate (conjugate and "
                       "transpose), which is what the basis change of the tensor form corresponds to in every basis", minimum=2)
     rule_H(run, prog)
+    run.rule("C07-I", "time-dependent propagation reads the tensor on the tensor's own grid: the bound of the running tensor "
+                      "index is located on the axis it indexes, and a propagation step that is no whole multiple of the "
+                      "tensor's step is refused", minimum=6)
+    rule_I(run, prog)
 
 
 def rule_E(run, prog):
@@ -406,3 +410,57 @@ def rule_H(run, prog):
             run.obligation(rid, f.short, not real, key="adjoint-storage",
                            message="%s allocates the conjugated operators with the real element type %s: their imaginary parts "
                                    "are dropped" % (f.short, dt[0] if dt else ""), loc=f.loc(a_), sample={"allocation": norm(a_)[:80]})
+
+
+def rule_I(run, prog):
+    """'Generate the same propagated dynamics / reproduce exp(-i w t - g(t)) up to the time-step error' with a
+    time-dependent tensor known on the time axis of its system-bath interaction.  In every routine of the propagator that
+    reads `self.RelaxationTensor.data[indxR, ...]` with a running index:
+    (i) the bound of that index (cutoff_indx) comes from the axis of the tensor (…SystemBathInteraction.TimeAxis) in both
+    branches - located with the propagation axis it freezes the tensor at the wrong time whenever the two grids differ;
+    (ii) the step dt = sysstep*stride with stride = round(step/sysstep)//Nref equals step/Nref only if the ratio is a whole
+    number >= 1: the rounded ratio is compared back with the ratio (a refusal that mentions the rounded ratio, the
+    tensor's step and the propagation step), otherwise a ratio of 0.5 gives dt = 0 and nothing is propagated."""
+    rid = "C07-I"
+    cls = prog.cls(RDMMOD + ".ReducedDensityMatrixPropagator")
+    n = 0
+    for nme, fn in sorted(cls.methods.items()):
+        reads = [x for x in walk_no_nested(fn.node) if isinstance(x, ast.Subscript) and norm(x.value) == "self.RelaxationTensor.data"
+                 and isinstance(x.slice, ast.Tuple) and isinstance(x.slice.elts[0], ast.Name)]
+        if not reads:
+            continue
+        prog.consulted.add(fn.relpath)
+        bounds = [st for st in walk_no_nested(fn.node) if isinstance(st, ast.Assign) and norm(st.targets[0]) == "cutoff_indx"]
+        if not bounds:
+            raise AnalysisError("%s: bound of the tensor index not found" % fn.short)
+        names = {}
+        for st in walk_no_nested(fn.node):
+            if isinstance(st, ast.Assign) and isinstance(st.targets[0], ast.Name):
+                names[st.targets[0].id] = norm(st.value)
+        for b in bounds:
+            n += 1
+            root = b.value.func.value if isinstance(b.value, ast.Call) and isinstance(b.value.func, ast.Attribute) else \
+                (b.value.value if isinstance(b.value, ast.Attribute) else b.value)
+            txt = norm(root)
+            head = txt.split(".")[0]
+            if head in names:
+                txt = names[head] + txt[len(head):]
+            ok = "SystemBathInteraction.TimeAxis" in txt
+            run.obligation(rid, fn.short, ok, key="bound-on-tensor-axis:" + norm(b.value)[:40],
+                           message="%s bounds the running index into the tensor with %s: the index counts points of the axis the "
+                                   "tensor is known on, the bound is taken on another axis, so with different grids the tensor is frozen "
+                                   "at the wrong time" % (fn.short, norm(b.value)[:60]), loc=fn.loc(b))
+        rounds = [st for st in walk_no_nested(fn.node) if isinstance(st, ast.Assign) and isinstance(st.value, ast.Call)
+                  and call_name(st.value) == "round" and isinstance(st.targets[0], ast.Name)]
+        for r_ in rounds:
+            n += 1
+            nm = r_.targets[0].id
+            checked = [t_ for t_ in walk_no_nested(fn.node) if isinstance(t_, ast.If) and any(isinstance(x, ast.Raise) for x in t_.body)
+                       and nm in {y.id for y in ast.walk(t_.test) if isinstance(y, ast.Name)}
+                       and "sysstep" in norm(t_.test) and "self.TimeAxis.step" in norm(t_.test)]
+            run.obligation(rid, fn.short, bool(checked), key="ratio-is-whole:" + nm,
+                           message="%s rounds the ratio of the propagation step and the tensor's step (%s) and never compares the "
+                                   "result with the ratio: 0.5 fs on a 1 fs tensor gives a step of 0 (nothing is propagated, no error), "
+                                   "1.5 fs makes time run 4/3 too fast" % (fn.short, norm(r_)[:60]), loc=fn.loc(r_))
+    if n < 6:
+        raise AnalysisError("only %d bounds / rounded ratios found in the time-dependent routines (6 confirmed)" % n)
